@@ -113,6 +113,64 @@ theorem printf_matches_iso_witness_c_nul :
     printf "%c".toList [.int 0] = .done [NUL] 1 := by
   refine ⟨?_, ?_, ?_⟩ <;> decide
 
+/-! ## the ISO reference itself: a second formulation, and its shape -/
+
+/-- digits by repeated division = `Nat.toDigits` (the two ways the two
+formulations obtain the digits of a value) -/
+theorem digits_by_division (base n : Nat) (hb : 2 ≤ base) :
+    digitsDiv base (n + 1) n = Nat.toDigits base n :=
+  digitsDiv_eq base hb (n + 1) n (Nat.lt_succ_self n)
+
+/-- `isoInt` (digits by `Nat.toDigits`, the octal `#` decided by looking at the
+first character, three text layouts) and `isoInt2` (SpecAlt.lean: digits by
+repeated division, every padding counted from lengths, the octal `#` decided
+from the value, one layout) are the same function — for every flag combination,
+width, precision, sign, magnitude, base ≥ 2 (upper case only with base 16) -/
+theorem iso_int_formulations_agree (minus plus space hash zero : Bool) (width : Nat) (prec : Option Nat)
+    (signedConv neg : Bool) (mag base : Nat) (upper : Bool) (hb : 2 ≤ base) (hup : upper = true → base = 16) :
+    isoInt2 minus plus space hash zero width prec signedConv neg mag base upper
+      = isoInt minus plus space hash zero width prec signedConv neg mag base upper :=
+  isoInt2_eq minus plus space hash zero width prec signedConv neg mag base upper hb hup
+
+/-- the length of a converted integer is max(field width, length of the
+conversion without a field width) -/
+theorem iso_int_length (minus plus space hash zero : Bool) (width : Nat) (prec : Option Nat)
+    (signedConv neg : Bool) (mag base : Nat) (upper : Bool) :
+    (isoInt minus plus space hash zero width prec signedConv neg mag base upper).length
+      = max width (isoInt minus plus space hash zero 0 prec signedConv neg mag base upper).length := by
+  rw [isoInt_layout, isoInt_layout, layoutS_length, layoutS_zero]
+  simp only [List.length_append]
+
+/-- order of the pieces: with `body1 ++ body2` the conversion without a field
+width (`body1` = sign and `0x`, `body2` = the digits), the field is
+`spaces · body1 · zeros · body2 · spaces`; the three paddings add up to
+`width - |body|`; `-` pads only on the right; zeros (the `0` flag) come after
+the sign/prefix, only without `-` and without a precision, and then there are
+no spaces -/
+theorem iso_int_shape (minus plus space hash zero : Bool) (width : Nat) (prec : Option Nat)
+    (signedConv neg : Bool) (mag base : Nat) (upper : Bool) :
+    ∃ (l z r : Nat) (body1 body2 : List Char),
+      isoInt minus plus space hash zero 0 prec signedConv neg mag base upper = body1 ++ body2 ∧
+      isoInt minus plus space hash zero width prec signedConv neg mag base upper
+        = List.replicate l ' ' ++ body1 ++ List.replicate z '0' ++ body2 ++ List.replicate r ' ' ∧
+      l + z + r = width - (body1 ++ body2).length ∧
+      (minus = true → l = 0 ∧ z = 0) ∧ (minus = false → r = 0) ∧
+      (z ≠ 0 → l = 0 ∧ zero = true ∧ prec = none) := by
+  obtain ⟨l, z, r, h1, h2, h3, h4, h5⟩ := layoutS_shape minus zero (prec = none) width
+    (specSign signedConv neg plus space ++
+      (if hash ∧ base = 16 ∧ mag ≠ 0 then (if upper then ['0', 'X'] else ['0', 'x']) else []))
+    (if hash ∧ base = 8 ∧ (specDigits prec mag base upper).head? ≠ some '0'
+      then '0' :: specDigits prec mag base upper else specDigits prec mag base upper)
+  refine ⟨l, z, r,
+    (specSign signedConv neg plus space ++
+      (if hash ∧ base = 16 ∧ mag ≠ 0 then (if upper then ['0', 'X'] else ['0', 'x']) else [])),
+    (if hash ∧ base = 8 ∧ (specDigits prec mag base upper).head? ≠ some '0'
+      then '0' :: specDigits prec mag base upper else specDigits prec mag base upper), ?_, ?_, ?_, h3, h4, ?_⟩
+  · rw [isoInt_layout, layoutS_zero]
+  · rw [isoInt_layout]; exact h1
+  · rw [List.length_append]; exact h2
+  · intro hz; obtain ⟨a, b, c⟩ := h5 hz; exact ⟨a, b, by simpa using c⟩
+
 /-! ## which formats ISO defines: the domain of `printf_matches_iso` -/
 
 /-- every format of the grammar `( text | % flags* width? precision? length?
@@ -401,6 +459,10 @@ example : ((({ prec := true } : Ops).chr = false ∧
 example : ((({ chr := true } : Ops).chr = false ∧
     (NUL ∈ [NUL, NUL] ∨ (({ chr := true } : Ops).prec = true ∧ 2 ≤ [NUL, NUL].length))) ∨
     (({ chr := true } : Ops).chr = true ∧ [NUL, NUL] ≠ [])) := by decide
+
+-- iso_int_formulations_agree / iso_int_length / iso_int_shape on `%#08x` of 255 and `%-+6.3d` of 7
+example : isoInt2 false false false true true 8 none false false 255 16 false = "0x0000ff".toList := by decide
+example : isoInt true true false false false 6 (some 3) true false 7 10 false = "+007  ".toList := by decide
 
 -- IsoDefined: `a=%-*.3lld|%+05d|%.2s|%#x` as pieces, with its arguments
 example : IsoDefined "a=%-*.3lld|%+05d|%.2s|%#x".toList
